@@ -21,6 +21,7 @@ const (
 	kIdent = "package-name"
 	kPath  = "import-path"
 	kDir   = "directory"
+	kElem  = "path-element"
 )
 
 type kindInfer struct {
@@ -112,6 +113,9 @@ func (k *kindInfer) kindOf(info *types.Info, fd *ast.FuncDecl, e ast.Expr) strin
 			return kPath
 		case "path/filepath.Join", "path/filepath.Dir", "path/filepath.Abs", "path/filepath.Clean":
 			return kDir
+		case "path/filepath.Base", "path.Base":
+			// the last element of a path or import path: a directory name, which is not the package's name
+			return kElem
 		case "path.Join":
 			if len(x.Args) > 0 {
 				return k.kindOf(info, fd, x.Args[0])
